@@ -949,7 +949,18 @@ def m_wrapping_add(I, st, call):
 def m_from_be(I, st, call):
     a = call.args[0]
     it = I.int_ty(call.dest_ty)
-    r = I.fresh_int(st, "from_be", it, info=("byteswap", a.aff if isinstance(a, IntV) else None))
+    bits = None
+    if isinstance(a, IntV) and it is not None and not it[1] and it[0] % 8 == 0:
+        # little-endian target: from_be / to_be / swap_bytes reverse the byte order; from_le / to_le are the identity
+        ab = I.bits_of(st, a, it[0])
+        if call.name in ("from_le", "to_le"):
+            return [(st, a)]
+        nb = it[0] // 8
+        bits = tuple(ab[(nb - 1 - (i // 8)) * 8 + (i % 8)] for i in range(it[0]))
+    if bits is not None and any(b is not None for b in bits):
+        r = I.from_bits(st, bits, it, "from_be")
+    else:
+        r = I.fresh_int(st, "from_be", it, info=("byteswap", a.aff if isinstance(a, IntV) else None))
     r.origin = (call.name, a)
     return [(st, r)]
 
